@@ -100,6 +100,11 @@ func unwrapIface(v ssa.Value) ssa.Value {
 func elemValueSource(v ssa.Value) ssa.Value {
 	ta, ok := v.(*ssa.TypeAssert)
 	if !ok {
+		// a helper's parameter that every call site feeds with <other argument>.parent.Value.(T): the element is the
+		// helper's own view of that other parameter's parent
+		if p, isP := v.(*ssa.Parameter); isP {
+			return elemOfParam(p)
+		}
 		return nil
 	}
 	ld, ok := ta.X.(*ssa.UnOp)
@@ -111,6 +116,67 @@ func elemValueSource(v ssa.Value) ssa.Value {
 		return nil
 	}
 	return fa.X
+}
+
+// elemOfParam: p is a parameter of an unexported pkg/cache helper h, and at every call site of h the argument for p is
+// e.Value.(T) with e = <argument k>.parent for one and the same k: returns a load of <parameter k>.parent found in h.
+func elemOfParam(p *ssa.Parameter) ssa.Value {
+	h := p.Parent()
+	if h == nil || h.Parent() != nil || h.Object() == nil || h.Object().Exported() {
+		return nil
+	}
+	idx := -1
+	for k, q := range h.Params {
+		if q == p {
+			idx = k
+		}
+	}
+	buildCallSiteIndex(h)
+	sites := callSiteIndex[orig(h)]
+	if idx < 0 || len(sites) == 0 || addressTaken[orig(h)] {
+		return nil
+	}
+	owner := -1
+	for _, site := range sites {
+		args := site.Common().Args
+		if idx >= len(args) {
+			return nil
+		}
+		ta, ok := args[idx].(*ssa.TypeAssert) // (resolve would look through the assertion)
+		if !ok {
+			return nil
+		}
+		e := elemValueSource(ta)
+		if e == nil {
+			return nil
+		}
+		it := parentLoadOf(resolve(e))
+		if it == nil {
+			return nil
+		}
+		k := -1
+		for j, a := range args {
+			if j != idx && (resolve(a) == resolve(it) || sameValueOrPath(a, it)) {
+				k = j
+			}
+		}
+		if k < 0 || (owner >= 0 && owner != k) {
+			return nil
+		}
+		owner = k
+	}
+	if owner < 0 || owner >= len(h.Params) {
+		return nil
+	}
+	var found ssa.Value
+	allInstrs(h, func(j ssa.Instruction) {
+		if ld, ok := j.(*ssa.UnOp); ok && found == nil {
+			if it := parentLoadOf(ld); it != nil && resolve(it) == ssa.Value(h.Params[owner]) {
+				found = ld
+			}
+		}
+	})
+	return found
 }
 
 // isParentLoadOf: v is a load of <item>.parent; returns the item value.
@@ -220,6 +286,59 @@ func sortFuncs(fs []*ssa.Function) {
 	}
 }
 
+// pushSite: a list push judged where the pushed value is known. A push inside an unexported policy helper that pushes its
+// own parameter (pushProbation(sitem)) is judged at each call of the helper, with the argument as the pushed value.
+type pushSite struct {
+	at   ssa.Instruction // the push itself, or the helper call standing for it
+	fn   *ssa.Function   // the function `at` sits in
+	v    ssa.Value       // the pushed value in fn's frame (interface wrapper removed)
+	push ssa.Instruction // the list push
+	alts []pushSite      // where the push can be judged instead when it cannot be judged in the helper: the helper's call sites
+}
+
+func policyPushSites(u *Universe) []pushSite {
+	var out []pushSite
+	for _, f := range policyFuncs(u) {
+		f := f
+		allInstrs(f, func(i ssa.Instruction) {
+			if !isListPush(i) {
+				return
+			}
+			v := unwrapIface(callOf(i).Args[1])
+			if p, isP := v.(*ssa.Parameter); isP && f.Parent() == nil && f.Object() != nil && !f.Object().Exported() {
+				switch f.Name() {
+				case "Admit", "Access", "Remove", "Victim", "Init", "Close":
+				default:
+					idx := -1
+					for k, q := range f.Params {
+						if q == p {
+							idx = k
+						}
+					}
+					buildCallSiteIndex(f)
+					sites := callSiteIndex[orig(f)]
+					if idx >= 0 && len(sites) > 0 && !addressTaken[orig(f)] {
+						own := pushSite{at: i, fn: f, v: v, push: i}
+						for _, site := range sites {
+							if _, isCall := site.(*ssa.Call); !isCall || idx >= len(site.Common().Args) {
+								out = append(out, pushSite{at: i, fn: f, v: v, push: i})
+								return
+							}
+						}
+						for _, site := range sites {
+							own.alts = append(own.alts, pushSite{at: site, fn: site.Parent(), v: unwrapIface(site.Common().Args[idx]), push: i})
+						}
+						out = append(out, own)
+						return
+					}
+				}
+			}
+			out = append(out, pushSite{at: i, fn: f, v: v, push: i})
+		})
+	}
+	return out
+}
+
 func isFreshAlloc(v ssa.Value) bool {
 	switch x := v.(type) {
 	case *ssa.Alloc:
@@ -232,21 +351,17 @@ func ruleC15RelinkIsAMove(c *Ctx) {
 	u := c.U1
 	c.rule("C15.relink-is-a-move", "in every policy method each list push of a value that is already on a list (not a fresh wrapper, not the item being admitted) travels with the unlink of the element that held it: before the push on every path, or after it on every path except where the item had no element (item.parent == nil)", 3)
 	n := 0
-	for _, f := range policyFuncs(u) {
-		allInstrs(f, func(i ssa.Instruction) {
-			if !isListPush(i) {
-				return
-			}
-			cc := callOf(i)
-			v := unwrapIface(cc.Args[1])
-			name := trimPkgDirs(shortName(f)) + "/" + listCallName(i) + "(" + describePushed(v) + ")"
+	for _, ps := range policyPushSites(u) {
+		ps := ps
+		// eval judges the push at one site; applies=false: nothing to show there (fresh wrapper, first admission)
+		eval := func(f *ssa.Function, i ssa.Instruction, v ssa.Value) (good, applies bool, name string) {
+			name = trimPkgDirs(shortName(f)) + "/" + listCallName(ps.push) + "(" + describePushed(v) + ")"
 			if isFreshAlloc(v) {
-				return
+				return true, false, name
 			}
 			if f.Name() == "Admit" && len(f.Params) > 1 && v == ssa.Value(f.Params[1]) {
-				return // first admission of a new item
+				return true, false, name // first admission of a new item
 			}
-			n++
 			c.FuncsAnalysed[shortName(f)] = true
 			// which element held v, or which item is v
 			held := elemValueSource(v) // v = e.Value.(T)
@@ -283,8 +398,25 @@ func ruleC15RelinkIsAMove(c *Ctx) {
 					return false
 				})
 			}
-			c.check(before || after, name, u.ipos(i), "the previous element of the value is unlinked on the same paths", "a value that already sits on a list is pushed again without its previous element being removed: the stale element stays on the list and is later offered as a victim for an entry the cache no longer holds")
-		})
+			return before || after, true, name
+		}
+		report := func(good bool, name string, at ssa.Instruction) {
+			n++
+			c.check(good, name, u.ipos(at), "the previous element of the value is unlinked on the same paths", "a value that already sits on a list is pushed again without its previous element being removed: the stale element stays on the list and is later offered as a victim for an entry the cache no longer holds")
+		}
+		good, applies, name := eval(ps.fn, ps.at, ps.v)
+		switch {
+		case !applies:
+		case good || len(ps.alts) == 0:
+			report(good, name, ps.at)
+		default:
+			// a helper that only pushes what it is handed: the unlink is the callers' to do, at every call
+			for _, alt := range ps.alts {
+				if g2, a2, n2 := eval(alt.fn, alt.at, alt.v); a2 {
+					report(g2, n2, alt.at)
+				}
+			}
+		}
 	}
 	if n < 3 {
 		c.bad("cache/relinks", "", fmt.Sprintf("expected at least 3 relinking pushes (slru promotion, slru demotion, lfu frequency move), found %d", n))
